@@ -33,9 +33,17 @@ func (g G) Parked() bool {
 	case strings.HasPrefix(s, "chan receive"),
 		strings.HasPrefix(s, "chan send"),
 		strings.HasPrefix(s, "select"),
-		strings.HasPrefix(s, "semacquire"),
 		strings.HasPrefix(s, "sync."):
 		return true
+	case strings.HasPrefix(s, "semacquire"):
+		// "semacquire" is the state of sync.WaitGroup.Wait (top frame
+		// sync.runtime_Semacquire) but also of runtime-internal semaphores
+		// whose frames are hidden, so that the top frame is the user function
+		// that happened to allocate: the GC start/transition semaphores. Those
+		// end by themselves (seen under load: half of an instance's goroutines
+		// queued on the GC start semaphore right after StartAll, nothing
+		// requested yet, everything "parked").
+		return strings.HasPrefix(strings.TrimSpace(g.TopFunc()), "sync.")
 	}
 	return false
 }
